@@ -175,7 +175,9 @@ def conv_configs(tier, seed):
     circ = [0.25, 0.73, 2.5, 10.5] + ([2.0 ** -6, 0.5, 1.5] if big else [])
     ell = [(0.5, 0.25, math.pi / 6), (2.5, 0.73, 1.0), (3.65, 1.5, -0.3), (10.5, 0.25, at)]
     rect = [(1.0, 0.5, math.pi / 6), (5.0, 1.46, 1.0), (7.3, 3.0, -0.3), (21.0, 0.5, at), (3.0, 2.0, 0.0), (4.0, 1.0, 2.0),
-            (4.0, 1.5, -2.0)]
+            (4.0, 1.5, -2.0),
+            # whole quarter turns of both signs (sides along the pixel axes, width and height exchanged for the odd ones)
+            (5.0, 1.46, -math.pi / 2), (3.0, 2.0, -1.5 * math.pi), (4.0, 1.0, math.pi / 2), (7.3, 3.0, -math.pi), (4.0, 1.5, 1.5 * math.pi)]
     if big:
         ell += [(1.0, 1.0, math.pi / 4), (0.73, 2.5, 2.5), (8.0, 0.5, math.pi / 2), (2.0 ** -6, 0.25, 1.0)]
         rect += [(2.0, 2.0, math.pi / 4), (1.46, 5.0, 2.5), (16.0, 1.0, math.pi / 2), (2.0 ** -5, 0.5, 1.0)]
@@ -458,10 +460,24 @@ def check_on_image(res, trk, cfg):
     case = _case(cfg, 'to_image')
     try:
         m = _build(cfg).to_mask(mode='exact')
+        # the image handed out is the caller's: normalised in place by its owner, then asked for again
+        first = m.to_image((ny, nx))
+        if first is not None and first.flags.writeable:
+            first *= 0.5
+            first += 3.0
         img = m.to_image((ny, nx))
     except Exception as exc:          # noqa: BLE001
         res.violation(ID, 'unexpected_exception', case, f"to_mask('exact').to_image({(ny, nx)}) raised {type(exc).__name__}: {exc}")
         return
+    if not cfg.get('_cover'):
+        # the same shape moved by whole pixels so that its box starts at pixel (0, 0), on an image that is exactly that box
+        try:
+            bb = m.bbox
+            c2 = dict(cfg, phase=[cfg['phase'][0] - bb.ixmin, cfg['phase'][1] - bb.iymin], image=[int(bb.shape[0]), int(bb.shape[1])], _cover=True)
+        except Exception:      # noqa: BLE001
+            c2 = None
+        if c2 is not None and c2['image'][0] > 0 and c2['image'][1] > 0:
+            check_on_image(res, trk, c2)
     po = _oracle(cfg, 0, 0, nx, ny, full=True)
     if img is None:
         if float(np.max(po.ref)) > TOL:
